@@ -1,6 +1,104 @@
-//! C02 (stub during build)
-use crate::common::{Scenario, SrcCache};
+//! C02: every completed version keeps restoring to its own snapshot (E1 histories).
+
+use std::sync::Mutex;
+
+use serde_json::{json, Value};
+
+use crate::common::{restore_exact, Scenario, SrcCache};
+use crate::hist::{self, HState, Op, Transition};
+use crate::report::{Report, Violation};
+use crate::run::{self, Sel};
+use crate::tree::Cmp;
 use crate::util::Budget;
-pub fn depth_states_as_scenarios(_srcs: &SrcCache, _depth: usize, _budget: &Budget) -> Vec<Scenario> {
-    Vec::new()
+
+/// After every archive event: every live complete band restores to its snapshot; "latest
+/// complete" resolves to the newest of them.
+pub fn oracle(tr: &Transition) -> Vec<Violation> {
+    let mut v = Vec::new();
+    if matches!(tr.ev.op, Op::Garbage(_)) {
+        return v;
+    }
+    let site = match &tr.ev.op {
+        Op::Backup(_) => "after-backup",
+        Op::Crashed(_) => "after-interrupted-backup",
+        Op::Delete(_) => "after-delete",
+        Op::Gc => "after-gc",
+        Op::Garbage(_) => "after-garbage",
+    };
+    for (b, expected) in &tr.child.live {
+        let diffs = restore_exact(tr.dir, *b, expected, tr.scratch, Cmp::FULL);
+        if !diffs.is_empty() {
+            v.push(Violation::new(
+                format!("C02:version-does-not-restore-to-its-snapshot:{site}"),
+                format!("{}: b{b:04}: {diffs:?}", tr.at()),
+            ));
+        }
+    }
+    if let Some(newest) = tr.child.live.keys().max() {
+        let (o, got) = run::do_resolve(tr.dir, Sel::LatestClosed);
+        if got != Some(*newest) {
+            let headless = tr
+                .child
+                .snap
+                .band_ids()
+                .iter()
+                .any(|b| !tr.child.snap.files.contains_key(&format!("b{b:04}/BANDHEAD")));
+            let sig = if headless {
+                "C02:latest-complete-unresolvable:a-band-dir-without-BANDHEAD-exists".to_string()
+            } else {
+                format!("C02:latest-complete-wrong:{site}")
+            };
+            v.push(Violation::new(
+                sig,
+                format!(
+                    "{}: latest complete version should be b{newest:04}, got {got:?} ({})",
+                    tr.at(),
+                    o.describe()
+                ),
+            ));
+        }
+    }
+    v
+}
+
+fn depths(report: &Report) -> (usize, bool, bool) {
+    if report.thorough() {
+        (3, true, true)
+    } else {
+        (2, false, false)
+    }
+}
+
+pub fn run(report: &Report, budget: &Budget) {
+    let (d, full, allcp) = depths(report);
+    let st = hist::explore(report, budget, "C02", d, full, allcp, &oracle, None, None);
+    hist::write_stats(report, &st, d);
+}
+
+pub fn replay(case: &Value) -> Vec<Violation> {
+    hist::replay(case, &oracle, None)
+}
+
+/// States of the history graph up to `depth`, turned into crash scenarios for C03 (thorough).
+pub fn depth_states_as_scenarios(_srcs: &SrcCache, depth: usize, budget: &Budget) -> Vec<Scenario> {
+    let dummy = Report::new("C03-scenarios", "quick", "model_checking");
+    let collected: Mutex<Vec<HState>> = Mutex::new(Vec::new());
+    let sub = Budget::new(((1.0 - budget.frac()) * 0.3 * 1200.0).max(30.0) as u64);
+    let noop = |_: &Transition| Vec::new();
+    hist::explore(&dummy, &sub, "C03", depth, false, false, &noop, None, Some(&collected));
+    let mut out = Vec::new();
+    for st in collected.into_inner().unwrap() {
+        for (i, src) in [hist::SRC0, hist::SRC0.set(0, 2).set(2, 2).set(1, 0)].iter().enumerate() {
+            out.push(Scenario {
+                name: format!("H[seed {} {:?}]+src{}", st.seed, st.describe_path(), i),
+                pre: st.snap.clone(),
+                band_src: st.heads.clone(),
+                complete: st.live.keys().cloned().collect(),
+                src: src.tree(),
+                opts: hist::opts_p(),
+            });
+        }
+    }
+    let _ = json!(null);
+    out
 }
